@@ -530,6 +530,13 @@ def unfold(expr, body, before, stop=()):
     if isinstance(s, ast.Assign) and len(s.targets) == 1 and \
             isinstance(s.targets[0], ast.Name):
       defs[s.targets[0].id] = (s.value, s)
+    elif isinstance(s, ast.Assign) and len(s.targets) == 1 and \
+            isinstance(s.targets[0], ast.Tuple) and \
+            isinstance(s.value, ast.Tuple) and \
+            len(s.targets[0].elts) == len(s.value.elts):
+      for a_, b_ in zip(s.targets[0].elts, s.value.elts):
+        if isinstance(a_, ast.Name):
+          defs[a_.id] = (b_, s)
     elif isinstance(s, (ast.AugAssign,)) and isinstance(s.target, ast.Name):
       defs.pop(s.target.id, None)
 
